@@ -275,6 +275,15 @@ func (srv *Server) isStarted() bool {
 	return started
 }
 
+// drainChannel returns the channel that the serve loop of the current
+// generation closes once it has drained.
+func (srv *Server) drainChannel() chan struct{} {
+	srv.lock.RLock()
+	shutdown := srv.shutdown
+	srv.lock.RUnlock()
+	return shutdown
+}
+
 func makeUDPBuffer(size int) func() interface{} {
 	return func() interface{} {
 		return make([]byte, size)
@@ -483,10 +492,14 @@ func (srv *Server) serveTCP(l net.Listener) error {
 		srv.NotifyStartedFunc()
 	}
 
+	// The drain channel of this generation: a restart after an expired
+	// ShutdownContext replaces srv.shutdown while this loop still drains.
+	shutdown := srv.drainChannel()
+
 	var wg sync.WaitGroup
 	defer func() {
 		wg.Wait()
-		close(srv.shutdown)
+		close(shutdown)
 	}()
 
 	for srv.isStarted() {
@@ -515,6 +528,9 @@ func (srv *Server) serveTCP(l net.Listener) error {
 func (srv *Server) serveUDP(l net.PacketConn) error {
 	defer l.Close()
 
+	// The drain channel of this generation, see serveTCP.
+	shutdown := srv.drainChannel()
+
 	reader := Reader(defaultReader{srv})
 	if srv.DecorateReader != nil {
 		reader = srv.DecorateReader(reader)
@@ -528,7 +544,7 @@ func (srv *Server) serveUDP(l net.PacketConn) error {
 		srv.lock.Lock()
 		srv.started = false
 		srv.lock.Unlock()
-		close(srv.shutdown)
+		close(shutdown)
 		return &Error{err: "PacketConnReader was not implemented on Reader returned from DecorateReader but is required for net.PacketConn"}
 	}
 
@@ -539,7 +555,7 @@ func (srv *Server) serveUDP(l net.PacketConn) error {
 	var wg sync.WaitGroup
 	defer func() {
 		wg.Wait()
-		close(srv.shutdown)
+		close(shutdown)
 	}()
 
 	rtimeout := srv.getReadTimeout()
